@@ -673,7 +673,7 @@ Definition m_bop (f : bop) (h : heap) (a b : hval) : heap * option hval :=
       | None =>
         match str_pair_of h b with
         | Some (HInt kb, wb) =>
-          let '(h0, lw) := alloc h KStr [(nokey, wb)] in
+          let '(h0, lw) := alloc (clone_val h wb) KStr [(nokey, wb)] in
           let h1 := drop_val h0 b in
           let '(h2, l') := make_mut h1 (ref_loc a) in
           (m_put_key h2 l' (KB [kb]) (HRef lw None), Some (HRef l' (ref_dflt a)))
